@@ -5,7 +5,7 @@ from props import acc_common as A
 
 THEOREMS = ['Acc/AccFacts.v: accessors_raise_only (on trees with non-empty leaf values and groups, the only accessors that can raise '
             'are get_window / get_parameters), names_total, name_accessors_total, get_cases_total, get_type_total, comparison_total, '
-            'get_window_spec / get_window_no_over, C07_accessors_refuted (select f(x): get_window raises AttributeError)']
+            'get_window_spec, get_window_no_over (None without OVER since the library fix), C07_accessors_get_window_fixed']
 TRUSTED = ['accessor models tied to the code by the acc correspondence (result or exception class of every accessor on every node)']
 ASSUMPTIONS = []
 
